@@ -363,6 +363,8 @@ class PVLParser(object):
                             )
                             if not keep_parsing:
                                 raise ve
+                        except LexerError:
+                            raise
                         except Exception:
                             # The Begin-Aggregation-Statement (and maybe
                             # more) has already been consumed, so the caller
